@@ -9,7 +9,8 @@ import DirectVerif.Model.MaskBudget
                          `equi_count_decomp`)                                             → `ok bound | counts`
   `gauss1d N L Rn Rd | candidates`        candidate columns of the libc stream           → `ok k returned count | bits`
   `gauss2d nrow ncol Rn Rd | acs bits | x₀ y₀ x₁ y₁ …`                                  → `ok k returned count`
-  `bisect Rn Rd tn td | an ad stalled …`  per-iteration realised accelerations           → `ok code iters num den`
+  `bisect Rn Rd tn td | an ad stalled … | post flags`  accelerations seen by the tolerance test; the table of
+                         statements after it  → `ok code iters num den` (acceleration of the RETURNED mask)
 -/
 namespace DirectVerif.Driver.C07
 open DirectVerif DirectVerif.Driver DirectVerif.MaskBudget
@@ -59,8 +60,9 @@ def step (op : String) (gs : List (List Int)) : String :=
     match gaussLoop k ((pairs xy).map fun (x, y) => cell2d nrow ncol x y) 0 m0 with
     | some m => okG [[k, 1, countTrue m]]
     | none => okG [[k, 0, 0]]
-  | "bisect", [[Rn, Rd, tn, td], ps] =>
-    match bisect (q Rn Rd) (q tn td) (probes ps) 0 with
+  | "bisect", [[Rn, Rd, tn, td], ps, postFlags] =>
+    -- post statements from the generated table; a mask-modifying one has an effect the model cannot know: sentinel -1
+    match poisson (q Rn Rd) (q tn td) (probes ps) (postOfTable (postFlags.map fun f => ("", f != 0)) fun _ => -1) with
     | .returned a n => okG [[0, n, a.num, a.den]]
     | .raised n => okG [[1, n, 0, 1]]
     | .running n => okG [[2, n, 0, 1]]
